@@ -1,4 +1,5 @@
 """C13 — configurations of one schema share no state and never alter the schema."""
+import json
 import os
 import re
 
@@ -217,6 +218,10 @@ def exhaustive(tier):
             for order in ("A-B-edit", "A-edit-B", "A-edit-A2"):
                 for repeat in (1, 3):
                     yield {"mode": "same-document", "fmt": fmt, "route": route, "order": order, "repeat": repeat}
+    for kind in ("schema", "configtype"):
+        for place in ("root", "nested"):
+            for route in ("setattr", "setitem", "load_tree", "ctor", "loads-json"):
+                yield {"mode": "rejected-sub-assign", "kind": kind, "place": place, "route": route}
     for kind in ("list", "typed-list", "any-list", "dict", "typed-dict", "any-dict"):
         for size in (0, 2):
             for place in ("root", "nested", "configtype", "list-item"):
@@ -287,6 +292,50 @@ def _shared_default_case(case, R):
         dflt = field.default
         R.check(dflt is None or (list(dflt) if is_list else dict(dflt)) == declared, "schema-const", "shared-default:" + kind,
                 lambda: "the field's declared default became %r (declared %r)" % (dflt, declared))
+
+
+def _rejected_sub_assign_case(case, R):
+    """Something that is neither a map nor a configuration is offered where a sub-configuration is declared (schema / config
+    type; root / nested; every route): the schema and the other configurations of it stay as they were."""
+    cc = sandbox._state["cc"]
+    kind, place, route = case["kind"], case["place"], case["route"]
+    sub = cc.Schema()
+    sub.host = cc.StringField(default="h")
+    sub.port = cc.IntField(default=1)
+    schema = cc.Schema()
+    schema.label = cc.StringField(default="l")
+    holder = schema if place == "root" else schema.outer
+    holder.part = sub if kind == "schema" else cc.make_type(sub, "RejectedPart", module=__name__)
+    R.label("rejected-sub-assign", "rejected-sub-assign:" + kind)
+    R.nontrivial = True
+    b = schema()
+    before_b = worlds.snapshot(b, cc)
+    before_schema = schema_snapshot(cc, schema)
+    for bad in (5, "text", [1, 2], 1.5, True, b"x", ("a", 1), object()):
+        a = schema()
+        tree = {"part": bad} if place == "root" else {"outer": {"part": bad}}
+        try:
+            if route == "setattr":
+                setattr(a if place == "root" else a.outer, "part", bad)
+            elif route == "setitem":
+                a["part" if place == "root" else "outer.part"] = bad
+            elif route == "load_tree":
+                a.load_tree(tree)
+            elif route == "ctor":
+                if place != "root":
+                    return
+                schema(part=bad)
+            else:
+                if isinstance(bad, (bytes, tuple)) or type(bad) is object:
+                    continue
+                a.loads(json.dumps(tree).encode(), "json")
+        except Exception:
+            pass
+        now = schema_snapshot(cc, schema)
+        if not R.check(now == before_schema, "schema-const", "rejected-sub-assign:" + route,
+                       lambda: "offering %r for the sub-configuration via %s changed the schema: %s" % (bad, route, worlds.diff(before_schema, now))):
+            before_schema = now
+        R.check(worlds.snapshot(b, cc) == before_b, "isolated", "rejected-sub-assign:" + route, lambda: "offering %r via %s changed another configuration" % (bad, route))
 
 
 def _same_document_case(case, R):
@@ -372,6 +421,8 @@ def _same_document_case(case, R):
 def run_case(case, R):
     if case.get("mode") == "same-document":
         return _same_document_case(case, R)
+    if case.get("mode") == "rejected-sub-assign":
+        return _rejected_sub_assign_case(case, R)
     if case.get("mode") == "shared-default":
         return _shared_default_case(case, R)
     cc = sandbox._state["cc"]
